@@ -51,4 +51,4 @@ def run(ded, repo, tier):
                            'refuted' if missing else 'proved', backend='ast', detail='not blocked: %r' % missing if missing else '',
                            model=dict(missing=missing)))
     ded.assume('keys and values are opaque hashable values with total, side-effect-free ==/hash')
-    ded.trust('not under contract (bounded only): OneToOne.__init__/update/copy/__ior__ closure, ManyToMany.__setitem__/__delitem__/replace/update (add and remove are under contract), FrozenDict.__hash__/updated/copy/pickle')
+    ded.trust('not under contract (bounded only): OneToOne.__init__/copy/fromkeys/unique (update and |= are under contract: they preserve the invariant for any argument), ManyToMany.__setitem__/__delitem__/replace/update (add and remove are under contract), FrozenDict.__hash__/updated/copy/pickle')
